@@ -19,5 +19,6 @@ Record proto_desc := {
   p_resp_writers : list string;          (* methods of LangServer that call conn.write_response / write_error *)
   p_running : list (string * bool);      (* assignments to self.running *)
   p_handle_callers : list string;
+  p_lazy : list (string * string);        (* (method, source): iterators/sets/dict views that are stored or returned *)
   p_unknown : list string                (* anything the translator did not recognise *)
 }.
